@@ -196,6 +196,9 @@ flag_cases = st.builds(
 
 
 def run_case(case):
+    if case.get("kind") == "mid-call":
+        from .. import midcall
+        return midcall.run_case(case)
     if case.get("kind") == "flag-api":
         return check_flag_api(case)[2]
     if case.get("kind") == "avp":
@@ -275,6 +278,9 @@ def main(ctx):
     col.merge(typed)
     # two threads serialising their own messages at the same time (fresh interpreter per scenario): every dump of a thread's message is
     # the same byte string, whichever line the other thread is parked at
+    from .. import midcall
+    midcall.sweep(col, "c01", "building and serialising a message gives the same bytes whatever another thread is building at the same time",
+                  ks=[1] if ctx.quick else [1, 2, 3, 4], nmax=12000, chunk=8, step=131 if ctx.quick else 37)
     dumps = [c["_dumps"] for c in common.first_use_sweep(col, "c01", "dump() is the message's own encoding, whatever other threads serialise meanwhile")]
     for k in (0, 1):
         seen = {d[k] for d in dumps}
@@ -284,7 +290,7 @@ def main(ctx):
                           f"thread {k}: {len(seen)} different encodings of one message: {[str(x)[:80] for x in seen]}")], nontrivial=True, classes=["first-use-concurrent"])
     for path, rec in common.load_replays(PID):
         col.record(rec["case"], run_case(rec["case"]), nontrivial=True, classes=["replay"])
-    ctx.required_classes = ["first-use-parked-mid-call", "padded", "vendor", "nested", "depth>=3", "same-name-twice", "generic", "flag-bit-api", "vendor+padded",
+    ctx.required_classes = ["first-use-parked-mid-call", "padded", "vendor", "nested", "depth>=3", "same-name-twice", "generic", "flag-bit-api", "mid-call-parked", "vendor+padded",
                             "nested+padded", "res0", "res1", "res2", "res3", "sweep", "typed", "time-under-non-default-tz"]
     ctx.assumptions = ["in-domain values per class as tabled in vf/gens.py (DESIGN C01); constructions the library refuses "
                        "are counted as discards, not judged", "reference dictionary ref/avp_dictionary.json supplies code/vendor/default flags"]
